@@ -69,9 +69,19 @@ Theorem cmp_meaning a b :
   cmp_num clean Gt a b = (b <? a) /\ cmp_num clean Gte a b = (b <=? a) /\ cmp_num clean Lt a b = (a <? b) /\ cmp_num clean Lte a b = (a <=? b).
 Proof. repeat split. Qed.
 
-Theorem between_meaning bl s l x a b : beval clean bl s l (BBetween x a b) = true <->
-  Z.min (fst (neval bl s l a)) (fst (neval bl s l b)) < fst (neval bl s l x) < Z.max (fst (neval bl s l a)) (fst (neval bl s l b)).
-Proof. cbn. rewrite andb_true_iff, !Z.ltb_lt. tauto. Qed.
+Theorem between_meaning bl s l x a b : floatable (nvalue bl s l x) = true -> floatable (nvalue bl s l a) = true -> floatable (nvalue bl s l b) = true ->
+  (beval clean bl s l (BBetween x a b) = true <->
+  Z.min (fst (neval bl s l a)) (fst (neval bl s l b)) < fst (neval bl s l x) < Z.max (fst (neval bl s l a)) (fst (neval bl s l b))).
+Proof.
+  intros Hx Ha Hb. cbn [beval]. cbv zeta.
+  assert (N: forall v, floatable v = true -> is_vnone v = false) by (intros [] H; cbn in *; congruence).
+  rewrite (N _ Hx), (N _ Ha), (N _ Hb), Hx, Ha, Hb. cbn [orb andb]. rewrite andb_true_iff, !Z.ltb_lt. tauto.
+Qed.
+
+(** a side that is None: not between; a side that is not a number: strictly between as trimmed text *)
+Theorem between_none bl s l x a b : is_vnone (nvalue bl s l x) || is_vnone (nvalue bl s l a) || is_vnone (nvalue bl s l b) = true ->
+  beval clean bl s l (BBetween x a b) = false.
+Proof. intros H. cbn [beval]. cbv zeta. rewrite H. reflexivity. Qed.
 
 (** all(): every header has a value on this line — the line has exactly as many cells as there are headers and no cell is blank *)
 Theorem all_cells_meaning q bl s l nh : beval q bl s l (BAllCells nh) = true <->
